@@ -37,7 +37,7 @@ claimed["C18"] = (
     "off() with 0..2/3 arguments; asserts multiset equality with filter-out-all-named, no panic, mutex released. Because the pre-state is arbitrary one step covers all call sequences. "
     "eventHandlerStore.off likewise over two events with handler identity = code pointer (reflect model). The public On/Once/Off wrappers of Manager, Server, Namespace, serverSocket, "
     "clientSocket are executed concretely through the same executor (Off(f) removes f and only f; Once fires once).",
-    "Outside the claim: distinct closures sharing one code pointer (reflect cannot tell them apart - the repo's own notion of identity); the concurrent at-most-once guarantee unless C18_once_race is listed in the evidence; lists longer than the bounds.",
+    "Two occurrences racing (plus an Off) under all interleavings: a Once handler goes to at most one occurrence, an On handler to both. Outside the claim: distinct closures sharing one code pointer (reflect cannot tell them apart - the repo's own notion of identity); lists longer than the bounds.",
     "5 (C18)")
 
 claimed["C04"] = (
@@ -46,7 +46,7 @@ claimed["C04"] = (
     "the sockets the 5-line reference selects, once each, never to the sender; one membership operation (join, leave, leave-all, SocketsJoin, SocketsLeave, DisconnectSockets with sockets calling back "
     "into the adapter) from every such state yields exactly the specified new membership and preserves the representation invariant (rooms/sids mutually inverse, no empty room kept) - one inductive "
     "step covers histories of any length over that universe. To/Except immutability is checked concretely.",
-    "Outside the claim: membership changes concurrent with a broadcast (interval semantics) unless C04_concurrent is listed in the evidence; multi-node adapters; universes larger than 3x3; end-to-end delivery. "
+    "Also: a broadcast racing a join / leave / disconnect of a third socket under all interleavings (interval semantics: member throughout exactly once, non-member never, changing socket at most once). Outside the claim: multi-node adapters; universes larger than 3x3; end-to-end delivery. "
     "Map iteration follows insertion order in the executor (Go leaves it unspecified).",
     "5 (C04)")
 
@@ -55,8 +55,7 @@ claimed["C08"] = (
     "disconnect point d, clean-up passes after the disconnect (0..1) and before the restore (0..2) executed by running the real cleaner goroutine body (its time.Sleep is gated), and the time elapsed between "
     "all steps as SYMBOLIC durations (0..4 units each, decided by the solver, not enumerated). Asserts: recovered => exactly the addressed packets after the offset, in order, none twice (no gap); session older "
     "than the window => not recovered; session and log entries younger than the window => recoverable whatever the passes; unknown pid / offset => not recovered; only plain events are logged.",
-    "Outside the claim: instants exactly at the window boundary (durations are multiples of 100ms against a 250ms window), binary packets through the real encoder (frames are opaque), the client/server glue "
-    "(callEvent offset capture, newServerSocket resend) unless C08_glue is listed in the evidence, several sessions on one log, time overflow. Native replay approximates cleaner passes with a 2ms period.",
+    "Outside the claim: instants exactly at the window boundary (durations are multiples of 100ms against a 250ms window), binary packets through the real encoder (frames are opaque), several sessions on one log, time overflow. Native replay approximates cleaner passes with a 2ms period.",
     "5 (C08)")
 
 claimed["C09"] = (
@@ -96,7 +95,7 @@ claimed["C03"] = (
     "(2) three outstanding acks and a reply with an ARBITRARY symbolic uint64 id, delivered twice: only the callback registered under exactly that id runs, at most once, unknown/duplicate ids reach the error "
     "handlers; (3) client socket offline: 1..2 (quick) / 1..3 (thorough) buffered emits of 1..3/4 frames with and without acks, the timeout of one fires while it is still buffered: callback exactly once with "
     "ErrAckTimeout, buffer == frames of the other packets in order, sendBufferMu free, socket still usable.",
-    "Bounds: preemption bound 3. Outside the claim: real timer durations (the claim is about every ORDER), the wire format of ACK packets (C09), the one-reply guard of received events and the client-side race unless listed in the evidence.",
+    "Bounds: preemption bound 3. Outside the claim: real timer durations (the claim is about every ORDER), the wire format of ACK packets (C09), nothing else known.",
     "5 (C03)")
 
 claimed["C12"] = (
